@@ -303,15 +303,15 @@ Qed.
 (* ---- the dispatch rule -------------------------------------------------------------------------- *)
 
 (* the flags of the event the loop sees *)
-Definition ev_read (s : st) (n : native) : bool := (nin n || nhup n) && int_r s.
-Definition ev_write (s : st) (n : native) : bool := (nout n || negb (ev_read s n) && nhup n) && int_w s.
+Definition ev_read (s : st) (n : native) : bool := (nin n || nhup n || nrdhup n) && int_r s.
+Definition ev_write (s : st) (n : native) : bool := (nout n || negb (ev_read s n) && (nhup n || nrdhup n)) && int_w s.
 
 Lemma dispatch_flags_eq s n o :
   registered s = true ->
   dispatch s n o = dispatch_flags s (ev_read s n) (ev_write s n) o.
 Proof.
-  intros Hr. unfold dispatch, ev_write, ev_read, unmap_events, kernel_filter. rewrite Hr. simpl.
-  destruct (nin n), (nout n), (nhup n), (int_r s), (int_w s); reflexivity.
+  intros Hr. unfold dispatch, ev_write, ev_read, unmap_events, kernel_filter, reported. rewrite Hr. simpl.
+  destruct (nin n), (nout n), (nhup n), (nrdhup n), (nerr n), (int_r s), (int_w s); reflexivity.
 Qed.
 
 Inductive dispatch_case (s : st) (n : native) (o : outcome) (s' : st) (r : out) : Prop :=
